@@ -246,7 +246,76 @@ def regex_with_anything(ctx: Ctx, n: int):
         ctx.mark_nontrivial(("rxany", pat, tuple(nodes)))
 
 
+def documented_partial_match(p: str, name: str) -> bool:
+    """Partial names as documented, with no regex involved: the text is compared character by character, a leading *
+    admits any prefix, a trailing * any suffix."""
+    st, en = p.startswith("*"), p.endswith("*") and len(p) > 1
+    text = p[(1 if st else 0):(len(p) - 1 if en else len(p))]
+    if st and en:
+        return text in name
+    if st:
+        return name.endswith(text)
+    if en:
+        return name.startswith(text)
+    return name == text
+
+
+def partial_names_stream(ctx: Ctx, n: int):
+    """have_name_containing on the real code vs naming the modules the partial names match by their documented,
+    character-by-character meaning (no regex and none of the library's conversion in the expectation).  The graphs contain
+    lookalikes for which a regex reading of the text differs from the literal one: 'r.a.b' vs 'r.axb' (the dot), 'r.a+' etc."""
+    for _ in range(n):
+        rng = ctx.rng
+        nodes = rules.rand_tree(rng, rng.choice((rules.COLLISION_FREE, rules.ADVERSARIAL)), max_nodes=rng.choice([6, 9, 12]))
+        cand = [x for x in nodes if x != "r" and "." in x]
+        if len(cand) < 2:
+            continue
+        base = rng.choice(cand)
+        comps = base.split(".")
+        # a sibling whose name reads like base's text with the dot replaced by a letter: r.a.b -> r.axb / r.xa.b
+        k = rng.randrange(1, len(comps))
+        look = ".".join(comps[:k - 1] + [comps[k - 1] + "x" + comps[k]] + comps[k + 1:])
+        look2 = ".".join(comps[:-1] + ["x" + comps[-1]])
+        extra = [x for x in (look, look2) if x not in nodes and x.startswith("r")]
+        nodes = sorted(set(nodes) | set(extra) | {".".join(x.split(".")[:i]) for x in extra for i in range(1, len(x.split(".")))})
+        edges = rules.rand_edges(rng, nodes, 10)
+        last, tail = comps[-1], ".".join(comps[-2:])
+        pats_pool = [base, "*" + last, base + "*", "*" + last + "*", "*." + last, "*." + last + "*", "*." + last[:1] + "*", "*" + tail, "*" + tail + "*",
+                     "*" + tail[:-1] + "*", base[:-1] + "*", "r.*", "*.zz", "*" + comps[-2] + "." + "*", "*.*", "*" + last + ".*"]
+        pats = rng.sample(pats_pool, rng.randint(1, 2))
+        per_pat = [[m for m in nodes if documented_partial_match(p, m)] for p in pats]
+        matched = sorted({m for ms in per_pat for m in ms})
+        all_matched = all(per_pat)
+        arch = rules.make_arch_direct(nodes, edges)
+        other = (rng.choice(["named", "sub"]), [rng.choice([x for x in nodes if x != "r"])])
+        side = rng.choice(["subj", "obj"])
+        ctx.stat("partial_" + ("all_patterns_match" if all_matched else "some_pattern_matches_nothing"))
+        if any(x in matched for x in extra) != any(documented_partial_match(p, base) for p in pats):
+            ctx.stat("partial_lookalike_separated")
+        for spec in rules.all_shapes(("named", ["r"]), other, with_aliases=False)[::2]:
+            if side == "subj":
+                compact, expanded = dict(spec, subj=("containing", pats), obj=other), dict(spec, subj=("named", matched), obj=other)
+            else:
+                compact, expanded = dict(spec, subj=other, obj=("containing", pats)), dict(spec, subj=other, obj=("named", matched))
+            a = rules.run_rule(rules.build_rule(compact), arch)
+            ctx.evaluations += 1
+            case = dict(nodes=nodes, edges=edges, partial_names=pats, documented_matches=matched, compact=rules._jsonable_spec(compact), expanded=rules._jsonable_spec(expanded), impl_compact=[a[0], a[1][:300]])
+            if not all_matched:
+                if a[0] != "ERR":
+                    ctx.violation(case, f"partial names {pats}, one of which matches no module, produced the verdict {a[0]}", {"kind": "partial_no_match"})
+                    break
+                continue
+            b = rules.run_rule(rules.build_rule(expanded), arch)
+            ctx.evaluations += 1
+            case["impl_expanded"] = [b[0], b[1][:300]]
+            if a[0] != b[0] or (a[0] == "FAIL" and rules.parse_message(a[1]) != rules.parse_message(b[1])):
+                ctx.violation(case, f"have_name_containing({pats}) {a[0]} but naming the modules these partial names stand for ({matched}) {b[0]}", {"kind": "partial_expansion"})
+                break
+        ctx.mark_nontrivial(("partial", tuple(pats), tuple(nodes)))
+
+
 def run(ctx: Ctx):
+    partial_names_stream(ctx, 200 if ctx.quick else 5000)
     same_rule_object_on_other_architectures(ctx, 150 if ctx.quick else 4000)
     regex_with_anything(ctx, 150 if ctx.quick else 4000)
     n_graphs = 2000 if ctx.quick else 40000
@@ -274,6 +343,23 @@ def replay(ctx: Ctx, path: str) -> int:
             if s.get(k) is not None:
                 s[k] = (s[k][0], s[k][1])
         return s
+    if "partial_names" in c:
+        nodes, edges = c["nodes"], [tuple(e) for e in c["edges"]]
+        arch = rules.make_arch_direct(nodes, edges)
+        pats = c["partial_names"]
+        per = [[m for m in nodes if documented_partial_match(p, m)] for p in pats]
+        a = rules.run_rule(rules.build_rule(fix(c["compact"])), arch)
+        if not all(per):
+            bad = a[0] != "ERR"
+            print(a[0], "(some partial name matches nothing: an error is expected)")
+        else:
+            b = rules.run_rule(rules.build_rule(dict(fix(c["expanded"]))), arch)
+            print(a[0], b[0])
+            bad = a[0] != b[0] or (a[0] == "FAIL" and rules.parse_message(a[1]) != rules.parse_message(b[1]))
+        if bad:
+            print(f"VIOLATION property=C11 replay={path}")
+            return 1
+        return 0
     specs = [fix(c[k]) for k in ("compact", "expanded", "batch") if k in c]
     res = eval_multi_regex([dict(nodes=c["nodes"], edges=[tuple(e) for e in c["edges"]], specs=specs)])
     outs = [io for (io, mo) in res[0][0]]
